@@ -26,12 +26,15 @@ type c05Params struct {
 	Len    int             `json:"len"` // bytes per record
 	Faults []simnet.RFault `json:"faults"`
 	Seg    int             `json:"seg"`
+	// HalfClosed: the receiving application has shut down its own write side (CloseWrite) before the damaged
+	// records arrive - it can no longer send an alert, but must fail and stay failed all the same
+	HalfClosed bool `json:"half_closed,omitempty"`
 }
 
 func (c05) ID() string    { return "C05" }
 func (c05) Level() string { return "fault_enumeration" }
 func (c05) Rule() string {
-	return "enumerated single faults on the protected application records of one direction after a clean handshake: XOR with masks 0x01/0x80/0xFF at every byte position (header, explicit nonce/IV, body, MAC/tag, padding) of a record, drop / duplicate / swap-with-next / cut-before of every record, truncation after every byte count of a record, injected records (plaintext and garbage, content types 20-24) before every record; both cipher modes (GCM, CBC), both directions; thorough adds large records, the ECDHE suites, all positions of every record index, and seeded multi-fault plans. The sender writes N self-describing records and closes; the receiver drains and keeps reading after the first error. distinct = distinct (suite, direction, sizes, fault plan); non-trivial = every planned fault hit a record"
+	return "enumerated single faults on the protected application records of one direction after a clean handshake: XOR with masks 0x01/0x80/0xFF at every byte position (header, explicit nonce/IV, body, MAC/tag, padding) of a record, drop / duplicate / swap-with-next / cut-before of every record, truncation after every byte count of a record, injected records (plaintext and garbage, content types 20-24) before every record; both cipher modes (GCM, CBC), both directions; thorough adds large records, the ECDHE suites, all positions of every record index, and seeded multi-fault plans. The sender writes N self-describing records and closes; the receiver drains and keeps reading after the first error; a thinned copy of the list runs against a receiver that has shut down its own write side first (CloseWrite). distinct = distinct (suite, direction, sizes, fault plan); non-trivial = every planned fault hit a record"
 }
 func (c05) Components() (real, stub []string) {
 	return []string{"tlcp.Conn client+server (instrumented): record protection, error latching, alerts"},
@@ -116,6 +119,15 @@ func c05List(tier string) []c05Params {
 					}
 				}
 			}
+		}
+		// the same faults (flips and truncations thinned out) against a receiver that has half-closed
+		for _, q := range append([]c05Params(nil), out...) {
+			f := q.Faults[0]
+			if q.Len != 64 || (f.Kind == simnet.RFlip && (f.Off%8 != 0 || f.Mask != 0x01)) || (f.Kind == simnet.RTrunc && f.Keep%8 != 0) {
+				continue
+			}
+			q.HalfClosed = true
+			out = append(out, q)
 		}
 		if ti == 1 {
 			// multi-fault plans are drawn in Run from the case seed (Faults == nil)
@@ -246,6 +258,12 @@ func (c05) Run(c *Case, src *vs.Src) *Result {
 			receiver.Close()
 			return
 		}
+		if p.HalfClosed {
+			if err := receiver.CloseWrite(); err != nil {
+				rHS = fmt.Errorf("CloseWrite: %w", err)
+				return
+			}
+		}
 		buf := make([]byte, 4096)
 		for {
 			n, err := receiver.Read(buf)
@@ -270,6 +288,9 @@ func (c05) Run(c *Case, src *vs.Src) *Result {
 	})
 	reason, unf := w.Run()
 	sigp := fmt.Sprintf("C05 %s dir%d", SuiteName(p.Suite), p.Dir)
+	if p.HalfClosed {
+		sigp += " half-closed"
+	}
 	w.Finish(r, sigp)
 	pj, _ := json.Marshal(p)
 	r.Key = hashKey(string(pj))
@@ -322,7 +343,7 @@ func (c05) Run(c *Case, src *vs.Src) *Result {
 		}
 	}
 	// CBC: ciphertext damage answered by bad_record_mac
-	if IsCBC(p.Suite) && len(fired) == 1 && fired[0].Kind == simnet.RFlip && fired[0].Off%recWireLen(p.Suite, p.Len) >= 5 {
+	if IsCBC(p.Suite) && !p.HalfClosed && len(fired) == 1 && fired[0].Kind == simnet.RFlip && fired[0].Off%recWireLen(p.Suite, p.Len) >= 5 {
 		sec := &ref.Secrets{KeyFor: keyResolver("server_sig", "server_enc", "client_sig", "client_enc"), Eph: env.KeyOps.Eph, Sessions: map[string][]byte{}}
 		v := ref.Observe(false, pair.WireUnits(true), sec)
 		rev := 1 - p.Dir
